@@ -154,19 +154,20 @@ def _stubbed(ctx, cfg):
                     ctx.eq("apply/signed == Re sum_s' O[s,s'] w(s',s)[row=%d]" % r, res._arr[r] * d2, want, z3_confirm=False)
     ctx.holds("apply/samples-unchanged", torch.equal(batch, keep) and not isinstance(batch, st.SymTensor))
 
-    # ---- lemma: sum_sigma p(sigma) apply(sigma) == Re tr(rho O) for the arbitrary symbolic state
+    # ---- lemma: sum_sigma p(sigma) apply(sigma) == Re tr(rho O) for the arbitrary symbolic state.
+    # Step 1 (per state, small): p(s) * [num(s',s) / den(s)] == the matrix element rho(s',s)
+    #         (pure: |psi_s|^2 psi_s' / psi_s == conj(psi_s) psi_s';  mixed: p_s rho(s',s)/p_s == rho(s',s)).
+    # Step 2: the sum over s of Re sum_s' O[s,s'] rho(s',s) is Re tr(rho O) -- free of denominators.
     lhs, rhs = ZERO, ZERO
     for k in range(D):
         pk = alg.re(den(k) * alg.conj(den(k))) if flav == "pure" else den(k)
-        loc = ZERO
         for kp in range(D):
             if O[k, kp].t:
-                loc = loc + O[k, kp] * num(kp, k) * alg.inv(den(k))
-        lhs = lhs + pk * alg.re(loc)
-        for kp in range(D):
-            if O[k, kp].t:
+                elem = (psi[kp] * alg.conj(psi[k])) if flav == "pure" else rho[kp][k]
+                ctx.eq("lemma/p(s) * w(s',s) == rho(s',s)[%d,%d]" % (kp, k), pk * (num(kp, k) * alg.inv(den(k))), elem, z3_confirm=False)
+                lhs = lhs + O[k, kp] * elem
                 rhs = rhs + ((alg.conj(psi[k]) * O[k, kp] * psi[kp]) if flav == "pure" else (O[k, kp] * rho[kp][k]))
-    ctx.eq("lemma/unbiased: sum_s p(s) apply(s) == Re tr(rho O)", lhs, alg.re(rhs), z3_confirm=False)
+    ctx.eq("lemma/unbiased: sum_s p(s) apply(s) == Re tr(rho O)", alg.re(lhs), alg.re(rhs), z3_confirm=False)
 
 
 def _diagonal(ctx, cfg):
@@ -254,7 +255,10 @@ def _e2e(ctx, cfg):
         ctx.eq("end-to-end/p(s) apply(s) == Re sum_s' O[s,s'] rho(s',s)[row=%d]" % k, res._arr[k] * alg.re(rho[k][k]), alg.re(want), z3_confirm=False)
         tot_l = tot_l + res._arr[k] * alg.re(rho[k][k])
         tot_r = tot_r + want
-    ctx.eq("end-to-end/sum_s p(s) apply(s) == Re tr(rho O)", tot_l, alg.re(tot_r), z3_confirm=False)
+    if kind != "mixed" or n == 1:
+        # (for mixed states with n >= 2 the sum is implied by the per-row obligations above; forming it would put
+        # every row's denominator into one query)
+        ctx.eq("end-to-end/sum_s p(s) apply(s) == Re tr(rho O)", tot_l, alg.re(tot_r), z3_confirm=False)
     ctx.frame("end-to-end/parameters-not-written")
 
 
